@@ -61,12 +61,12 @@ BOUNDS = {
                  "shift/rotate count operand": "[max(type min, -width), min(type max, width+7)]",
                  "run-time operand y of chains": "every value of the type (symbolic)",
                  "shapes": "as quick, with depth-2 constant trees over all 8 types in both block layouts, right-nested trees "
-                           "c op2 (c op1 c), op(cast c, c) / cast(c op c) / cast(cast c) over all type pairs, chains with "
+                           "c op2 (c op1 c) (op2 other than <<), op(cast c, c) / cast(c op c) / cast(cast c) over all type pairs, chains with "
                            "every combination of constant sub-expression forms"},
 }
 OUTSIDE = ["floating-point and pointer constants (no symbolic float in the engine)",
            "shift counts beyond width+7 or below -width (undefined operations; Python big-integer shifts of that size are not modelled)",
-           "expression trees deeper than 2 operators / chains longer than 3 links",
+           "expression trees deeper than 2 operators / chains longer than 3 links; a left-shift count that is itself a computed constant expression",
            "what an undefined operation left in the IR does at run time (only: it is not folded, nothing crashes, no out-of-range constant appears)"]
 ASSUMPTIONS = ["IR integer semantics as written in /verif/ref/irarith.py (two's complement wrap-around; / and % truncate toward zero "
                "as in ppci's own IR interpreter ir2py (idiv/irem), the C front end's lowering and the x86-64/RISC-V/wasm back ends; "
@@ -578,7 +578,8 @@ def jobs(tier, seed):
         for op1 in FOLD_OPS:
             for op2 in FOLD_OPS:
                 add(B(op2, ty, B(op1, ty, C(ty, "c0"), C(ty, "c1")), C(ty, "c2")), lay)
-                if thorough and lay == "one":
+                if thorough and lay == "one" and op2 != "<<":
+                    # (a computed left-shift count ranges over the whole type: 2**count is outside any engine width)
                     add(B(op2, ty, C(ty, "c2"), B(op1, ty, C(ty, "c0"), C(ty, "c1"))), lay)
     # 5. casts mixed with operators
     for ty in TYNAMES:
